@@ -138,6 +138,11 @@ Theorem scriptnum_minimal_unique : forall x y,
   core_minimal x = true -> core_minimal y = true -> lib_decode_num x = lib_decode_num y -> x = y.
 Proof. exact VarStr.scriptnum_minimal_unique. Qed.
 
+Theorem script_serialize_injective : forall cs1 cs2 s,
+  forallb wf_cmd cs1 = true -> forallb wf_cmd cs2 = true ->
+  lib_serialize cs1 = Some s -> lib_serialize cs2 = Some s -> cs1 = cs2.
+Proof. exact VarStr.script_serialize_injective. Qed.
+
 (* --- varstr: every byte string but the single zero byte (the single zero byte is recorded under C06 as known finding single_zero_byte_item) --- *)
 Theorem varstr_total : forall s, lib_varstr s <> None <-> Z.of_nat (length s) < 2 ^ 64.
 Proof. exact varstr_domain. Qed.
@@ -186,3 +191,4 @@ Print Assumptions scriptnum_minimal_unique.
 Print Assumptions varstr_total.
 Print Assumptions varstr_roundtrip.
 Print Assumptions varstr_prefix_free.
+Print Assumptions script_serialize_injective.
